@@ -117,6 +117,9 @@ func (c *ServerConnection) Start(ctx context.Context, cancel context.CancelFunc,
 	}()
 
 	<-ctx.Done()
+	// Don't return before the handler is shut down: a mapreduce handler merges
+	// its last partial result then, and the caller reports the final result next.
+	c.handler.Shutdown()
 }
 
 // Dail into a new SSH connection. Close connection in case of an error.
